@@ -108,10 +108,16 @@ def q2(chk, repo):
         st = call
         while not isinstance(st, ast.stmt):
             st = st._parent
-        ok = norm(b.get(nc.positional_params[0])) == "self.records_per_chunk" and norm(b.get(nc.positional_params[1])) == "self.shape[0]" \
-            and isinstance(st, ast.Assign) and norm(st.targets[0]) == "self.records_per_chunk"
+        from ..dataflow import wired
+        pflow = Flow(pi)
+        v0, t0 = wired(pflow, b.get(nc.positional_params[0]), "self.records_per_chunk")
+        v1, t1 = wired(pflow, b.get(nc.positional_params[1]), ["self.shape[0]", "len(self.byte_ranges)"])
+        stored = isinstance(st, ast.Assign) and norm(st.targets[0]) == "self.records_per_chunk"
+        if "unknown" in (v0, v1) or (not stored and not isinstance(st, ast.Return)):
+            raise AnalysisError(f"{am.relpath}:Array.__post_init__: normalize_chunksize({t0}, {t1}) in `{short(st, 60)}`: operands are computed, not referenced; not decided")
+        ok = v0 == "equal" and v1 == "equal" and stored
         chk.require(ok, "C06-Q2", f"{am.relpath}:Array.__post_init__", "self.records_per_chunk = normalize_chunksize(self.records_per_chunk, self.shape[0])",
-                    f"the stored chunk size is {short(st, 80)}: it must depend on both the option and the number of lines", key="post_init:normalize")
+                    f"the stored chunk size is {short(st, 80)} (operands {t0}, {t1}): it must depend on both the option and the number of lines", key="post_init:normalize")
     # exposure without arithmetic
     from .common_rules import spec_compare
     spec_compare(chk, "C06-Q2", am.func("Array.chunks"), "def chunks(self):\n    return (self.records_per_chunk, *self.shape[1:])",
